@@ -171,14 +171,15 @@ CHECKS["C16"] = {
             "categorical/MR pairings that each of the four _*UnconditionalCubeCounts.baseline variants, applied to the "
             "survey's tensor INCLUDING missing elements and the full MR selection axis, is w(row element)/w(eligible for "
             "it) with no condition on the column answer, and that column_index = 100 * (count/column base) / that share, "
-            "NaN where a share is undefined; 3-D under the hypothesis that the table element's rank among the valid "
-            "elements is its raw offset, and C16_rank_vs_offset_refuted exhibits a survey where the code's index is inf "
-            "and the specified one 100 without it. Tied to the code by running the model in Coq on the JSON payload "
+            "NaN where a share is undefined; 2-D and every partition of 3-D cubes wherever missing table categories sit "
+            "(the code addresses the raw counts by the payload offset of the k-th valid table element - the repaired "
+            "defect C16-3d-baseline-wrong-table; C16_former_witness is the survey on which the unrepaired code reported "
+            "inf instead of 100). Tied to the code by running the model in Coq on the JSON payload "
             "against _Slice.column_index on surveys with heavy, row-skewed column missingness (2-D/3-D, weighted or not), "
             "a respondent-level oracle, and a NaN check of inserted subtotals.",
-    "note": "Trusted: Coq kernel + vm_compute; hand-written model tied by correspondence only. OPEN FINDING "
-            "C16-3d-baseline-wrong-table (known_findings.d): 3-D cube with a missing table category before a valid one "
-            "takes the baseline from the wrong table; reported as KNOWN-FINDING, model kept faithful to the code. "
+    "note": "Trusted: Coq kernel + vm_compute; hand-written model tied by correspondence only. FIXED finding "
+            "C16-3d-baseline-wrong-table (known_findings.d, status fixed; 35% of the generated 3-D cases have a missing "
+            "table category before a valid one). "
             "Assumes MR items are never flagged missing (the code's 2-D baselines are not filtered by item validity) "
             "and every respondent's column answer is inside the payload; array dimensions are outside the property.",
     "design_ref": "DESIGN.md section 3 (C16), section 4 #7",
